@@ -453,6 +453,46 @@ def bounded_writers(ctx, b):
             except parsers.FormatError as ex:
                 ok, detail = False, {"writer": name, "spans": spans, "format_error": str(ex)}
             b.case((name, tuple(spans)), ok, detail, sample={"writer": name, "spans": spans, "output": out[:300]})
+    # histories: captions that were printed / formatted / written, then re-timed (adjust_caption_timing, or their times
+    # assigned), are written with their NEW times by every writer
+    for i in range(6 if not ctx.thorough else 40):
+        k = rng.choice([1, 2, 3])
+        pts = sorted(rng.randrange(2 * US, 3000 * US) // 1000 * 1000 for _ in range(2 * k))
+        spans = [(pts[2 * j], pts[2 * j + 1]) for j in range(k)]
+        shift = rng.choice([1500000, -1000000, 40000])
+        how = ["adjust", "assign"][i % 2]
+
+        def retimed(spans=spans, shift=shift, how=how):
+            cs = CaptionSet({"en-US": CaptionList([Caption(s_, e_, [T(f"cue {j}")]) for j, (s_, e_) in enumerate(spans)])})
+            for cp in cs.get_captions("en-US"):
+                repr(cp), cp.format_start(), cp.format_end(), cp.format_start(msec_separator=","), cp.format_end(msec_separator=".")
+            for w in writers.values():
+                w.write(cs)
+            if how == "adjust":
+                cs.adjust_caption_timing(offset=shift, rate_skew=1.0)
+            else:
+                for cp in cs.get_captions("en-US"):
+                    cp.start, cp.end = cp.start + shift, cp.end + shift
+            want = [(s_ + shift, e_ + shift) for s_, e_ in spans]
+            for name, w in writers.items():
+                out = w.write(cs)
+                if name == "srt":
+                    got = [(cu["start"], cu["end"]) for cu in parsers.parse_srt(out)]
+                elif name == "webvtt":
+                    got = [(cu["start"], cu["end"]) for cu in parsers.parse_webvtt(out)]
+                elif name in ("dfxp", "legacy", "single"):
+                    got = [(cu["start"], cu["end"]) for cu in parsers.parse_dfxp(out)["cues"].get("en-US", [])]
+                elif name == "sami":
+                    got = [(cu["start"], want[j][1]) for j, cu in enumerate(parsers.parse_sami(out)["cues"].get("en-US", []))]
+                else:
+                    got = [(cu["start_frame"] * 40000, cu["end_frame"] * 40000) for cu in parsers.parse_microdvd(out)]
+                    if got != [(int(s_) // 40000 * 40000, int(e_) // 40000 * 40000) for s_, e_ in want]:
+                        return False, {"writer": name, "written_after_retiming": got, "expected": want, "retimed_by": how}
+                    continue
+                if [(int(a), int(b_)) for a, b_ in got] != [(int(s_), int(e_)) for s_, e_ in want]:
+                    return False, {"writer": name, "written_after_retiming": got, "expected": want, "retimed_by": how}
+            return True, None
+        b.guard(("retimed", i), retimed, sample={"spans": spans, "shift": shift, "retimed_by": how})
     # captions with identical spans that are NOT neighbours stay separate cues, in order (only runs are merged, and only
     # by the writers that merge at all): 3-5 captions, the first span repeated after one or more others
     for i in range(12 if not ctx.thorough else 120):
